@@ -10,9 +10,11 @@ pub mod c09;
 pub mod c10;
 pub mod c11;
 pub mod c12;
+pub mod c13;
 pub mod c14;
 pub mod c15;
 pub mod c16;
+pub mod c17;
 pub mod c20;
 
 use crate::engine::Tier;
@@ -37,9 +39,11 @@ pub fn dispatch(id: &str, args: Args) -> ! {
         "C10" => c10::run(args),
         "C11" => c11::run(args),
         "C12" => c12::run(args),
+        "C13" => c13::run(args),
         "C14" => c14::run(args),
         "C15" => c15::run(args),
         "C16" => c16::run(args),
+        "C17" => c17::run(args),
         "C20" => c20::run(args),
         _ => crate::engine::fault(&format!("unknown property {id}")),
     }
